@@ -31,7 +31,7 @@ E4_COMBOS = [("JSONDict", None), ("JSONList", None), ("BufferedJSONDict", "ctx")
              ("BufferedJSONList", None), ("MemoryBufferedJSONList", "ctx"), ("JSONAttrDict", None),
              ("BufferedJSONDict", None)]
 E4_PROGRAMS = {"quick": 8, "thorough": 150}
-E4_BUDGET = {"quick": 14, "thorough": 1200}
+E4_BUDGET = {"quick": 14, "thorough": 500}
 SHARD_TIMEOUT = {"quick": 600, "thorough": 5400}
 
 
